@@ -38,6 +38,8 @@ def text(rnd, maxlen=24, allow_empty=True, edge=False, dots=True):
 def first_text(rnd, **kw):
     """text for a status-coded line (mid/end/data-first): may not be confused with
     nothing -- any printable text is legal there"""
+    if kw.pop("status_dots", True) and rnd.random() < 0.04:
+        return rnd.choice(["../keys/x", "..", "...x", ".hidden", ". x"])      # dots mean nothing in a status line
     return text(rnd, dots=False, **kw)
 
 
